@@ -19,8 +19,15 @@ namespace Shelx.C04
 variable {τ : Type} [DecidableEq τ]
 set_option linter.unusedSectionVars false
 
-/-- invariant of the repaired code: nothing is remembered by absolute index -/
+/-- invariant of the repaired code: nothing is remembered by absolute index.
+    It is the only hypothesis of the refinement theorems, and it is forced: with a non-empty `delete_on_write`
+    the statement is false (`dow_breaks` below; on the real code: `add_line(0, …)` on a file with two SFAC
+    lines, before the repair). The repaired parser never fills `delete_on_write` (`load_clean`,
+    `extracted_scheme_is_load`) and no edit does (`step_clean`); a caller who adds indices to the public
+    attribute by hand is outside the theorem. -/
 def Clean (s : St τ) : Prop := s.dow = []
+
+instance (s : St τ) : Decidable (Clean s) := by unfold Clean; infer_instance
 
 /-! ### the writer without index bookkeeping -/
 
@@ -128,6 +135,83 @@ theorem setHeap_list (h : Nat → List τ) (o : Nat) (t : List τ) (r : List (It
       by_cases ho : o' = o <;> simp [setHeap, ho]
     | blank => rw [List.filterMap_cons_none (by rfl), List.filterMap_cons_none (by rfl)]; exact ih
     | absorbed t' => simp [vis, setKey] at ih ⊢; exact ih
+
+/-! ### what the abstract edits mean (the specification says what the property says) -/
+
+/-- deleting: exactly one line — the first one printed by `o` — disappears; all others stay, in order -/
+theorem deleteKey_spec (o : Nat) (ls ls' : List (Line τ)) (h : deleteKey o ls = some ls') :
+    ∃ a l b, ls = a ++ l :: b ∧ ls' = a ++ b ∧ l.key = some o ∧ ∀ x ∈ a, ¬ x.key = some o := by
+  induction ls generalizing ls' with
+  | nil => simp [deleteKey] at h
+  | cons x r ih =>
+    by_cases hk : x.key = some o
+    · simp [deleteKey, hk] at h; subst h
+      exact ⟨[], x, r, rfl, rfl, hk, by simp⟩
+    · simp only [deleteKey, hk, if_false, Option.map_eq_some_iff] at h
+      obtain ⟨r', hr, rfl⟩ := h
+      obtain ⟨a, l, b, e1, e2, e3, e4⟩ := ih r' hr
+      refine ⟨x :: a, l, b, by simp [e1], by simp [e2], e3, ?_⟩
+      intro y hy; rcases List.mem_cons.mp hy with rfl | hy
+      · exact hk
+      · exact e4 y hy
+
+/-- inserting after an object: the new line stands right behind the first line printed by `o`; every old
+    line stays, in order -/
+theorem insertAfterKey_spec (o : Nat) (n : Line τ) (ls ls' : List (Line τ)) (h : insertAfterKey o n ls = some ls') :
+    ∃ a l b, ls = a ++ l :: b ∧ ls' = a ++ l :: n :: b ∧ l.key = some o ∧ ∀ x ∈ a, ¬ x.key = some o := by
+  induction ls generalizing ls' with
+  | nil => simp [insertAfterKey] at h
+  | cons x r ih =>
+    by_cases hk : x.key = some o
+    · simp [insertAfterKey, hk] at h; subst h
+      exact ⟨[], x, r, rfl, rfl, hk, by simp⟩
+    · simp only [insertAfterKey, hk, if_false, Option.map_eq_some_iff] at h
+      obtain ⟨r', hr, rfl⟩ := h
+      obtain ⟨a, l, b, e1, e2, e3, e4⟩ := ih r' hr
+      refine ⟨x :: a, l, b, by simp [e1], by simp [e2], e3, ?_⟩
+      intro y hy; rcases List.mem_cons.mp hy with rfl | hy
+      · exact hk
+      · exact e4 y hy
+
+/-- replacing: the first line printed by `o` is exchanged for the new one; every other line stays -/
+theorem replaceKey_spec (o : Nat) (n : Line τ) (ls ls' : List (Line τ)) (h : replaceKey o n ls = some ls') :
+    ∃ a l b, ls = a ++ l :: b ∧ ls' = a ++ n :: b ∧ l.key = some o ∧ ∀ x ∈ a, ¬ x.key = some o := by
+  induction ls generalizing ls' with
+  | nil => simp [replaceKey] at h
+  | cons x r ih =>
+    by_cases hk : x.key = some o
+    · simp [replaceKey, hk] at h; subst h
+      exact ⟨[], x, r, rfl, rfl, hk, by simp⟩
+    · simp only [replaceKey, hk, if_false, Option.map_eq_some_iff] at h
+      obtain ⟨r', hr, rfl⟩ := h
+      obtain ⟨a, l, b, e1, e2, e3, e4⟩ := ih r' hr
+      refine ⟨x :: a, l, b, by simp [e1], by simp [e2], e3, ?_⟩
+      intro y hy; rcases List.mem_cons.mp hy with rfl | hy
+      · exact hk
+      · exact e4 y hy
+
+/-- changing an object: same number of lines, same owners in the same order, and a line changes only if
+    `o` prints it -/
+theorem setKey_spec (o : Nat) (t : List τ) (ls : List (Line τ)) :
+    (setKey o t ls).map (·.key) = ls.map (·.key) ∧
+    ∀ (i : Nat) (l : Line τ), ls[i]? = some l →
+      (setKey o t ls)[i]? = some (if l.key = some o then { l with toks := t } else l) := by
+  constructor
+  · simp only [setKey, List.map_map]
+    apply List.map_congr_left
+    intro l _; by_cases hk : l.key = some o <;> simp [hk]
+  · intro i l hl
+    simp [setKey, List.getElem?_map, hl]
+
+/-- inserting at a position: the lines in front and the lines behind are the old ones, in order -/
+theorem insertAt_spec (p : Nat) (n : Line τ) (ls : List (Line τ)) :
+    insertAt p n ls = ls.take p ++ n :: ls.drop p := by
+  unfold insertAt
+  induction ls generalizing p with
+  | nil => cases p <;> simp [pyInsert]
+  | cons x r ih => cases p with
+    | zero => simp [pyInsert]
+    | succ p => simp [pyInsert, ih p]
 
 /-! ### the property -/
 
